@@ -477,11 +477,26 @@ def timefield_case(rng):
     for i in range(n):
         raw += layouts.make_record(name, 1_600_000_000 + i * 3600, 0, {f: (b"v%02d" % i) for (f, _, _) in fields})
     k = rng.randrange(n)
-    fld = rng.choice(("sec", "sec", "usec")) if uo is not None else "sec"
-    off, sz = (so, ss) if fld == "sec" else (uo, us)
-    at = k * size + off + rng.randrange(sz)
-    val = rng.choice((0x7F, 0x80, 0xFF))
-    raw[at] = val
+    ut_type_off = layouts.LAYOUTS[name][8]
+    how = rng.choice(("time", "small_value", "type_field" if ut_type_off is not None else "small_value", "type_field" if ut_type_off is not None else "time"))
+    if how == "time":
+        fld = rng.choice(("sec", "sec", "usec")) if uo is not None else "sec"
+        off, sz = (so, ss) if fld == "sec" else (uo, us)
+        at = k * size + off + rng.randrange(sz)
+        val = rng.choice((0x7F, 0x80, 0xFF))
+        raw[at] = val
+    elif how == "type_field":
+        # the record-type field set to values at and just past the ends of the table of known types
+        fld = "ut_type"
+        at = k * size + ut_type_off
+        val = rng.choice(list(range(0, 20)) + [9, 10, 11, 12, 12, 13, 13, 14] + [0x7F, 0x80, 0xFF, 0x100, 0x7FFF, 0xFFFF])
+        raw[at:at + 2] = (val & 0xFFFF).to_bytes(2, "little")
+    else:
+        # any byte of the record set to a small number (enumerations, counts, flags live in such bytes)
+        fld = "byte"
+        at = k * size + rng.randrange(size)
+        val = rng.randrange(0, 40)
+        raw[at] = val
     files = [core.FileSpec(fname, bytes(raw), 1600000000)]
     valids = []
     if rng.random() < 0.5:
@@ -489,7 +504,7 @@ def timefield_case(rng):
         valids[0].path = "v0.log"
         files.insert(rng.randrange(2), core.FileSpec("v0.log", valids[0].stored, 1600000000))
     argv = ["--color", "never", "-n", "--tz-offset", "+00:00"] + [f.path for f in files]
-    return core.Scenario(files, argv, None, "UTC"), valids, {"fault": "time_field_byte", "layout": name, "record": k, "field": fld,
+    return core.Scenario(files, argv, None, "UTC"), valids, {"fault": "record_field_" + how, "layout": name, "record": k, "field": fld,
                                                             "at": at, "val": val, "base_kind": "utmp", "base_container": "plain"}
 
 
